@@ -95,6 +95,12 @@ def check_reply(r, cmdtext, timeout, idle=False):
     return bad, bye
 
 
+# probes that once exposed a defect (or a seeded one): run first, by the first batch
+CORPUS_PROBES = [("sel", "UID EXPUNGE 0"), ("sel", "UID EXPUNGE 0:2"), ("sel", "UID EXPUNGE 99"), ("exam", "EXPUNGE"),
+                 ("sel", "EXPUNGE"), ("selempty", "UID EXPUNGE 1:*"), ("sel", "FETCH 0 FLAGS"), ("sel", "STORE 9:* +FLAGS (\\Seen)"),
+                 ("auth", "SELECT nosel"), ("auth", "STATUS gone (MESSAGES)")]
+
+
 def probe_batch(args):
     seed, nprobes, restart = args
     rng = random.Random(seed)
@@ -109,6 +115,8 @@ def probe_batch(args):
                 w = build_world(seed + k, restart)
             state = rng.choice(STATES)
             cmd = rng.choice(templates(rng))
+            if seed < 0 and k < len(CORPUS_PROBES):
+                state, cmd = CORPUS_PROBES[k]
             px = proxyx.ProxySession(w)
             try:
                 setup_state(px, state)
@@ -204,18 +212,98 @@ def outcome_level(ctx):
                            "model": {"tagged_codes": model_kinds, "keeps_connection": keep}})
 
 
+def race_batch(seed):
+    """Two connections.  One sends a command that takes the whole mailbox for itself (DELETE / RENAME / EXPUNGE of many
+    messages / CLOSE); the other sends a command for the same mailbox a few event-loop turns later, so that it arrives while
+    the first is being carried out (queued, or already taken off the queue and held by the management task).  Every one of
+    the commands must get exactly one tagged reply of its own, below COMMAND_TIMEOUT of virtual time."""
+    import asyncio
+    from asimap.client import COMMAND_TIMEOUT
+
+    rng = random.Random(seed)
+    results = []
+    firsts = ["DELETE victim", "RENAME victim moved", "DELETE victim", "SELECT-EXPUNGE", "DELETE victim"]
+    seconds = ["STATUS victim (MESSAGES)", "SELECT victim", "EXAMINE victim", "APPEND", "STATUS victim (UIDNEXT)", "DELETE victim",
+               'LIST "" "*"']
+    for k in range(6):
+        first, second, turns = rng.choice(firsts), rng.choice(seconds), rng.choice([0, 1, 2, 4, 6, 10, 15, 25])
+        w = W.World(seed=seed + k)
+        a = b = None
+        try:
+            w.session("S")
+            w.cmd("S", "x CREATE victim")
+            w.deliver("victim", rng.choice([3, 12, 30]), unseen=True)
+            a, b = proxyx.ProxySession(w), proxyx.ProxySession(w)
+            a.command("STATUS victim (MESSAGES)"); b.command("STATUS victim (MESSAGES)")
+            if first == "SELECT-EXPUNGE":
+                a.command("SELECT victim"); a.command("STORE 1:* +FLAGS.SILENT (\\Deleted)")
+                amsg = b"ra EXPUNGE"
+            else:
+                amsg = b"ra " + first.encode()
+            if second == "APPEND":
+                lit = W.make_msg(7000 + k)
+                bmsg = b"rb APPEND victim {%d}\r\n" % len(lit) + lit
+            else:
+                bmsg = b"rb " + second.encode()
+            t0 = w.loop.time()
+            a.feed(amsg)
+            for _ in range(turns):
+                w.loop.run_until_complete(asyncio.sleep(0))
+            b.feed(bmsg)
+            outs = {"ra": b"", "rb": b""}
+            pats = {t: re.compile(rb"(?m)^" + t.encode() + rb" (OK|NO|BAD)[^\r\n]*\r\n") for t in outs}
+            when = {}
+            while True:
+                w.quiesce()
+                outs["ra"] += a.take(); outs["rb"] += b.take()
+                for t in outs:
+                    if t not in when and pats[t].search(outs[t]):
+                        when[t] = w.loop.time() - t0
+                if len(when) == 2 or w.loop.time() - t0 > COMMAND_TIMEOUT + 30:
+                    break
+                w.settle(1.0)
+            elapsed = w.loop.time() - t0
+            problems = []
+            for t, sess in (("ra", a), ("rb", b)):
+                got = pats[t].findall(outs[t])
+                if len(got) != 1:
+                    problems.append(f"{t} ({(amsg if t == 'ra' else bmsg)[:40]!r}): {len(got)} tagged replies after {elapsed:.0f} virtual seconds")
+                if b"Command timed out" in outs[t] or when.get(t, elapsed) >= COMMAND_TIMEOUT:
+                    problems.append(f"{t} ({(amsg if t == 'ra' else bmsg)[:40]!r}): answered only by the command watchdog "
+                                    f"({when.get(t, elapsed):.0f} virtual seconds)")
+            for t, sess in (("a", a), ("b", b)):
+                if not sess.dropped:
+                    r3 = sess.command("NOOP")
+                    if len(r3["tagged"]) != 1:
+                        problems.append(f"session {t} is not usable afterwards: NOOP -> {r3['out'][:80]!r}")
+            results.append(({"race": [amsg.decode("latin-1")[:40], bmsg.decode("latin-1")[:40]], "turns_between": turns}, problems,
+                            {"first_connection": repr(outs["ra"][-300:]), "second_connection": repr(outs["rb"][-300:]), "elapsed": elapsed}))
+        except Exception as e:  # noqa: BLE001
+            import traceback
+            results.append(({"race": [first, second], "turns_between": turns}, ["harness/implementation raised: " + repr(e)],
+                            {"traceback": traceback.format_exc()[-1200:]}))
+        finally:
+            for px in (a, b):
+                if px is not None:
+                    px.close()
+            w.close()
+    return results
+
+
 def run(ctx):
     ctx.coverage["rule"] = ("random (state, command) pairs: states {authenticated, selected inbox(3 msgs), examine, selected "
                             "empty mailbox} x ~75 command templates instantiated with message sets {in range, beyond, * , "
                             "huge, reversed} and mailbox names {existing, INBOX, \\Noselect placeholder and its child, "
                             "deleted, missing, nested, with space}, half of the worlds restarted first; each probe goes "
                             "through the real IMAPClientProxy.run and is followed by a NOOP; distinct by (state, command "
-                            "text); non-trivial = every probe")
+                            "text); non-trivial = every probe. Plus two-connection races: DELETE / RENAME / EXPUNGE of a mailbox on one connection, "
+                            "STATUS / SELECT / EXAMINE / APPEND / DELETE / LIST for it on another 0-25 event-loop turns later")
     ok = ctx.prove("Properties/C06.v")
     outcome_level(ctx)
     nb = 32 if ctx.thorough else 16
     per = 60 if ctx.thorough else 40
     jobs = [(ctx.rng.randrange(1 << 30), per, i % 2 == 1) for i in range(nb)]
+    jobs[0] = (-1 - ctx.rng.randrange(1 << 20), per, False)     # a negative seed marks the batch that starts with CORPUS_PROBES
     with mp.get_context("fork").Pool(min(core.NPROC, nb)) as pool:
         allres = pool.map(probe_batch, jobs, chunksize=1)
     replies = {}
@@ -230,9 +318,23 @@ def run(ctx):
                 ctx.violation("a command was not answered exactly once / promptly / usably: " + problems[0],
                               {"case": case, "problems": problems, "observed": detail})
     ctx.extra["reply_kinds"] = replies
+    nr = 16 if ctx.thorough else 8
+    with mp.get_context("fork").Pool(min(core.NPROC, nr)) as pool:
+        races = pool.map(race_batch, [ctx.rng.randrange(1 << 30) for _ in range(nr)], chunksize=1)
+    nrace = 0
+    for res in races:
+        for case, problems, detail in res:
+            nrace += 1
+            ctx.count(case, nontrivial=True)
+            if problems and shown < 10:
+                shown += 1
+                ctx.violation("two connections, one mailbox: a command was not answered exactly once / promptly: " + problems[0],
+                              {"case": case, "problems": problems, "observed": detail})
+    ctx.extra["two_connection_races"] = nrace
     ctx.assume += ["'promptly' = the tagged reply is produced at a virtual elapsed time below COMMAND_TIMEOUT with all other "
                    "timers free to fire, i.e. not by the watchdog",
-                   "commands run one at a time per connection (IMAPClientProxy.run is sequential); concurrency is C10's"]
+                   "commands run one at a time per connection (IMAPClientProxy.run is sequential); linearizability of concurrent commands is "
+                   "C10's, but that each of two racing commands is ANSWERED is probed here too (two-connection races)"]
 
 
 def replay(ctx, path):
